@@ -44,7 +44,7 @@ pub fn prop() -> Prop {
         subs,
         extra,
         replay_extra,
-        watchdog_s: (1800, 21600),
+        watchdog_s: (3600, 28800),
     }
 }
 
